@@ -257,7 +257,8 @@ func (cv *conv) genCall(focusBias int) authsim.CallSpec {
 	if hi == 0 {
 		spec.Body = cv.cell.Body
 	}
-	spec.Method = "GET"
+	// body-less calls are reads, resolves (HEAD) and deletes
+	spec.Method = []string{"GET", "GET", "HEAD", "HEAD", "DELETE"}[rng.IntN(5)]
 	if spec.Body != authsim.BodyNone {
 		spec.Method = []string{"POST", "PUT", "PATCH"}[rng.IntN(3)]
 	}
